@@ -722,7 +722,7 @@ func (la *lockAnalyzer) body(pkg *packages.Package, body *ast.BlockStmt, entry l
 	la.depth++
 	defer func() { la.depth-- }()
 	f := la.p.NewFlat(pkg, body)
-	start := lstate{held: entry.held}
+	start := lstate{held: entry.held, unlockers: entry.unlockers, nils: entry.nils}
 	in := map[int]map[string]lstate{}
 	type item struct {
 		id int
@@ -1026,7 +1026,8 @@ func (la *lockAnalyzer) runDefers(pkg *packages.Package, s lstate, inLit *ast.Fu
 		var next []lstate
 		for _, cs := range cur {
 			if lit, ok := ds.Call.Fun.(*ast.FuncLit); ok {
-				exits := la.body(pkg, lit.Body, lstate{held: cs.held}, "defer", lit)
+				// (the release functions the function holds in locals are known to its deferred closures)
+				exits := la.body(pkg, lit.Body, lstate{held: cs.held, unlockers: s.unlockers, nils: s.nils}, "defer", lit)
 				if len(exits) == 0 {
 					next = append(next, cs)
 				}
